@@ -47,6 +47,12 @@ def run(rep, tier):
     dimension_tables(rep, F)
     from . import c05
     c05.winding_table(rep, F, rule="R1.7")
+    from . import c01_state
+    c01_state.topology_position(rep, F)
+    c01_state.label(rep, F)
+    c01_state.matrix_update(rep, F)
+    c01_state.bundle_labels(rep, F, tier)
+    c01_state.star_labels(rep, F, tier)
 
 
 # ------------------------------------------------------------------------------------------------
